@@ -186,7 +186,11 @@ pub(super) mod udp {
         type Error = anyhow::Error;
 
         fn decode(&mut self, src: &mut BytesMut) -> Result<Option<Self::Item>, Self::Error> {
-            if !src.is_empty() {
+            if src.len() >= 2 {
+                let head = address::try_decode_at(src, 0)? + 2 + trojan::CR_LF.len();
+                if src.len() < head || src.len() < head + u16::from_be_bytes([src[head - 4], src[head - 3]]) as usize {
+                    return Ok(None);
+                }
                 let addr = address::decode(src)?;
                 let len = src.get_u16();
                 src.advance(trojan::CR_LF.len());
